@@ -55,6 +55,48 @@ def all_types(max_leaves=3, max_size=12, atoms=(2, 3, 4)):
     for L in sorted(by): out += by[L]
     return out
 
+def onehot_types(max_size=6):
+    """sum types with a size-1 summand (a unit leaf inside a SumAxis): the types of one-hot vectors, of the
+    dimensions of a single stored cell, of `eye(n)[i]`.  Kept apart from all_types(): the exhaustive universes
+    of the axis level (whose typing is proved in the kernel) are unchanged; these types feed the random
+    tensor-level streams only."""
+    out = []
+    for n in range(2, max_size + 1):
+        for i in range(n):
+            parts = ([("atom", i)] if i else []) + [("atom", 1)] + ([("atom", n - i - 1)] if n - i - 1 else [])
+            out.append(("sum", parts))
+    return out
+
+def onehot_axis(n, i):
+    """SumAxis(i, unitAxis, n-i-1): the axis of a one-hot dimension of size n with the hot position i"""
+    return ("Sum", (i, UNIT, n - i - 1))
+
+def onehot_type(n, i):
+    return ("sum", ([("atom", i)] if i else []) + [("atom", 1)] + ([("atom", n - i - 1)] if n - i - 1 else []))
+
+def onehot_like(spec, rng, keep=0.0):
+    """a spec of the same shape, kind and dtype whose dimensions are one-hot (SumAxis(i, unitAxis, n-i-1)) or
+    unit; with probability `keep` one dimension keeps the axis it had (a one-hot dimension next to a physical
+    one).  Without a kept dimension the tensor has NO physical axis although ndim >= 1: it stores one element."""
+    vaxes, types = [], []
+    kept = rng.randrange(len(spec["vaxes"])) if spec["vaxes"] and rng.random() < keep else None
+    for d, (e, t) in enumerate(zip(spec["vaxes"], spec["types"])):
+        n = a_numel(e)
+        if d == kept: vaxes.append(e); types.append(t)
+        elif n == 1: vaxes.append(UNIT); types.append(("prod", []))
+        else:
+            i = rng.randrange(n); vaxes.append(onehot_axis(n, i)); types.append(onehot_type(n, i))
+    paxes = fv_list(vaxes); rng.shuffle(paxes)
+    m = math.prod(k for _, k in paxes)
+    kind = "bool" if spec["dtype"] == "bool" else "float"
+    vals = gen_values(m, rng, kind, specials=(m > 1))
+    if kind == "bool" and m == 1: vals = [True] if rng.random() < 0.7 else vals
+    return dict(types=types, vaxes=vaxes, paxes=paxes, default=spec["default"], dtype=spec["dtype"], values=vals)
+
+def is_onehot(spec):
+    """no physical axis although some dimension is not unit"""
+    return not spec["paxes"] and any(a_numel(e) != 1 for e in spec["vaxes"])
+
 # ---------------------------------------------------------------------------- axes (plain data)
 def a_numel(e):
     if e[0] == "Phys": return e[1][1]
@@ -232,10 +274,10 @@ def gen_values(n, rng, kind="float", specials=True, nan=False):
     return vals
 
 def gen_tensor(rng, types=None, kind="float", default=None, dtype=None, pool=None, nan=False,
-               max_numel=48, max_phys=64, **kw):
-    """a random typed patterned tensor spec"""
+               max_numel=48, max_phys=64, universe=None, **kw):
+    """a random typed patterned tensor spec (dimension types drawn from `universe`, default all_types())"""
     for _ in range(100):
-        ts = types if types is not None else gen_shape_types(rng, max_numel=max_numel)
+        ts = types if types is not None else gen_shape_types(rng, max_numel=max_numel, types=universe)
         pl = pool.copy() if pool is not None else Pool()
         vaxes, pl = gen_pattern(ts, rng, pl, **kw)
         paxes = fv_list(vaxes)
